@@ -63,6 +63,9 @@ Section Gw.
   Definition pi64 : T := ofZ 884279719003555 / ofZ 281474976710656.
   Definition sin_arg (tag : T) (phase : Z) : T := (tag + ofZ phase) * pi64 / ofZ 180.
   Definition gw_sinus (gw ampl s : T) : T := gw - (ampl * s).
+  (* config.go:126: g.GWPhase is the configured GroundWaterPhase, unchanged (the sinusoid's period is 360,
+     not a year: no normalisation is applied) *)
+  Definition gw_phase_of_config (configured : Z) : Z := configured.
 
   (* the level used on day [zeit]; [grw] = yesterday's level, [s] = math.Sin (sin_arg TAG phase);
      None = log.Fatal *)
